@@ -62,7 +62,7 @@ class Ctx:
     # ------------------------------------------------------------------ build
     def build(self, race=False):
         """Build the harness against /repo's current working tree with -tags verif."""
-        work = os.path.join(self.tmp, "harness")
+        work = os.path.join(self.tmp, "harness-race" if race else "harness")
         shutil.copytree(HARNESS, work)
         gomod = os.path.join(work, "go.mod")
         s = open(gomod).read().replace("/repo/", REPO.rstrip("/") + "/")
